@@ -72,7 +72,8 @@ fn tag_addr(tag: u32) -> SocketAddress {
 impl Ring {
     pub fn new(entries: u32) -> Ring {
         let (producer, consumer) = ring::pair::<Msg>(entries, PAYLOAD);
-        Ring { producer, consumer, entries, queue: VecDeque::new(), p_have: 0, c_have: 0, next_tag: 0, p_pos: 0 }
+        // `Cursor::init_producer` starts the producer with the whole (empty) ring acquired
+        Ring { producer, consumer, entries, queue: VecDeque::new(), p_have: entries, c_have: 0, next_tag: 0, p_pos: 0 }
     }
 
     fn modulus(&self) -> u32 {
@@ -107,12 +108,15 @@ impl Sys for Ring {
         match op {
             Op::PAcquire(w) => {
                 let got = self.producer.acquire(*w);
-                // the cached count is reused when it satisfies the (capped) watermark
+                // either the up-to-date count, or the cached one when that already satisfies the
+                // (capped) watermark - caching is an optimisation the property does not constrain
                 let want = (*w).min(self.entries);
-                if self.p_have < want {
-                    self.p_have = self.entries - self.queue.len() as u32;
-                }
-                ensure(got == self.p_have, "ring.p_acquire", || format!("producer.acquire({}) = {}, model {}", w, got, self.p_have))?;
+                let actual = self.entries - self.queue.len() as u32;
+                let cached_ok = self.p_have >= want && got == self.p_have;
+                ensure(cached_ok || got == actual, "ring.p_acquire", || {
+                    format!("producer.acquire({}) = {}, free slots {} (cached {})", w, got, actual, self.p_have)
+                })?;
+                self.p_have = got;
                 let data = self.producer.data();
                 ensure(data.len() as u32 == got, "ring.p_data_len", || format!("producer.data().len() = {}, acquired {}", data.len(), got))?;
                 // free slots carry the payload length the consumer reset them to (or the initial one)
@@ -156,10 +160,12 @@ impl Sys for Ring {
             Op::CAcquire(w) => {
                 let got = self.consumer.acquire(*w);
                 let want = (*w).min(self.entries);
-                if self.c_have < want {
-                    self.c_have = self.queue.len() as u32;
-                }
-                ensure(got == self.c_have, "ring.c_acquire", || format!("consumer.acquire({}) = {}, model {}", w, got, self.c_have))?;
+                let actual = self.queue.len() as u32;
+                let cached_ok = self.c_have >= want && got == self.c_have;
+                ensure(cached_ok || got == actual, "ring.c_acquire", || {
+                    format!("consumer.acquire({}) = {}, filled slots {} (cached {})", w, got, actual, self.c_have)
+                })?;
+                self.c_have = got;
                 self.check_visible()?;
             }
             Op::CRead { n } => {
@@ -218,8 +224,9 @@ impl Ring {
 pub const FAMILIES: &[&str] = &["ring"];
 
 fn configs(tier: Tier) -> Vec<(u32, usize)> {
-    // (entries, depth)
-    vec![(2, tier.pick(8, 11)), (4, tier.pick(8, 11))]
+    // (entries, depth); the reachable state space closes at depth 11 / 12 / .. (fixpoint), the
+    // depth bound is only a safety net
+    vec![(2, tier.pick(16, 40)), (4, tier.pick(16, 40)), (8, tier.pick(16, 40))]
 }
 
 pub fn run(family: &str, tier: Tier, out: &mut Output) {
